@@ -134,6 +134,17 @@ theorem gen_pad_region_eq_model (r : Region) (pn pe : Rat) :
     Gen.padRegion r.w r.e r.s r.n pn pe =
       ((padRegion r pn pe).w, (padRegion r pn pe).e, (padRegion r pn pe).s, (padRegion r pn pe).n) := rfl
 
+/-- Bridge: `check_region` as regenerated from /repo's source text (length test, `W > E`, `S > N`, in the code's order) accepts
+    and rejects exactly what the model's `checkRegion` does on a list of four bounds. -/
+theorem gen_check_region_eq_model (w e s n : Rat) :
+    Gen.checkRegion4 w e s n = (checkRegion [w, e, s, n]).map (fun _ => ()) := by
+  unfold Gen.checkRegion4 checkRegion
+  by_cases h1 : w > e
+  · simp [h1, Except.map]
+  · by_cases h2 : s > n
+    · simp [h1, h2, Except.map]
+    · simp [h1, h2, Except.map]
+
 /-- `pad_region` moves each bound outwards by the (north, east) amounts … -/
 theorem pad_outwards (r : Region) (pn pe : Rat) :
     padRegion r pn pe = ⟨r.w - pe, r.e + pe, r.s - pn, r.n + pn⟩ := rfl
